@@ -325,6 +325,27 @@ Proof.
     destruct IH. split; [lia|assumption].
 Qed.
 
+Lemma safe_poisson_sum : forall k expl x,
+  safe Q (poisson_sum NR k expl x) (fun z => (x <= z)%Z).
+Proof.
+  induction k as [|k IH]; intros expl x; simpl.
+  - apply safe_ret. lia.
+  - eapply safe_bind; [apply safe_poisson_loop|]. intros g Hg. cbv beta in Hg.
+    eapply safe_weaken; [apply IH|]. intros z Hz. cbv beta in Hz. lia.
+Qed.
+
+Lemma safe_draw_poisson : forall rate expl, 0 < rate ->
+  safe Q (draw_poisson NR false rate expl) (fun z => (0 <= z)%Z).
+Proof.
+  intros rate expl Hr. unfold draw_poisson, c500. cbn [orb]. nr.
+  destruct (Rleb rate 500) eqn:E.
+  - eapply safe_weaken; [apply safe_poisson_loop|]. intros z Hz. cbv beta in Hz. lia.
+  - sb; [lra|]. sb.
+    assert (Hn : (0 <= Int_part (rate / 500))%Z) by (apply Int_part_nonneg; apply Rlt_le; apply Rdiv_lt_0_compat; lra).
+    assert (Hn1 : IZR (Int_part (rate / 500) + 1) <> 0) by (apply Rgt_not_eq; apply (IZR_lt 0); lia).
+    sb; [exact Hn1|]. sb. apply safe_poisson_sum.
+Qed.
+
 (* ---------------- triangular ---------------- *)
 Lemma safe_draw_triangular : forall lo mode hi, lo <= mode <= hi -> lo < hi ->
   safe Q (draw_triangular NR lo mode hi) (fun x => lo <= x <= hi).
@@ -435,7 +456,7 @@ Proof.
     eapply safe_bind; [apply safe_draw_gamma; assumption|]. intros y2 [_ H2]. specialize (H2 (or_introl QP)). nr.
     eapply safe_lift; [apply r_div_val; lra|]. apply Rdiv_lt_0_compat; nra.
   - (* Poisson *)
-    unfold iv. eapply safe_bind; [apply safe_poisson_loop|]. intros z Hz. apply safe_ret. simpl. cbv beta in Hz. lia.
+    destruct W as [W1 W2]. unfold iv. eapply safe_bind; [apply safe_draw_poisson; assumption|]. intros z Hz. apply safe_ret. exact Hz.
   - (* Triangular *)
     destruct W. unfold fv. eapply safe_bind; [apply safe_draw_triangular; assumption|]. intros; apply safe_ret; assumption.
   - (* Uniform *)
